@@ -227,7 +227,7 @@ def deep_probe(v):
 def check_call(h, name, args, kwargs):
     v = build(h)
     t = v.base_str
-    ch0 = model.canon(v)
+    ch0 = model.freeze_value(v)
     what = '%s(%s%s)' % (name, ', '.join(repr(a)[:40] for a in args), (', ' + repr(kwargs)) if kwargs else '')
     state = {}
 
@@ -250,13 +250,9 @@ def check_call(h, name, args, kwargs):
             ok = se is not None and type(e) is se
         if not ok:
             bad.append(('undocumented-error', '%s on %r raised %s: %s' % (what, t, type(e).__name__, e)))
-        try:
-            same = model.canon(v) == ch0
-        except Exception:  # noqa
-            same = False
-        if not same:
-            bad.append(('changed-after-error', '%s on %r raised %s and left the receiver changed: %r -> %r'
-                        % (what, t, type(e).__name__, ch0, safe_canon(v))))
+        if not model.unchanged(v, ch0):
+            bad.append(('changed-after-error', '%s on %r raised %s and left the receiver changed: %s -> %s (or == differs)'
+                        % (what, t, type(e).__name__, model.describe_obs(ch0[0]), model.describe_obs(model.observe(v)))))
         return bad, None
     return [], (state['v'], res)
 
